@@ -124,9 +124,17 @@ def matching_starts(text, seq):
     return [i for i in range(n) if rx.match(d[i:i + n])]
 
 
+_ALIVE = []
+
+
 def _info(cls, seq):
     from harness import implutil
     ent = cls(implutil.mk_circular(seq, "r"))
+    # every wrapper stays alive while the others are asked (the same plasmid read from several origins, by
+    # several wrappers of one class, at the same time): what one reports never depends on the others
+    _ALIVE.append(ent)
+    if len(_ALIVE) > 400:
+        del _ALIVE[:200]
     t = implutil.typed_info(ent)
     return {k: t.get(k) for k in ("valid", "up", "down", "target", "placeholder")} , ("placeholder" in t)
 
